@@ -7,10 +7,7 @@ From MV.Proofs Require Import Arith Logic Prim View OpsLocal.
 Import ListNotations.
 Open Scope Z_scope.
 
-Section Guards.
-  Variable cfg : tcfg.
-  Variable ncap : Z -> option Z.
-
+Section Resolve.
   (* range resolution without wrap-around: what std's RangeBounds resolution accepts *)
   Definition start_of (bs : bound) : option Z :=
     match bs with BIncl n => Some n | BExcl n => if n + 1 <? W64 then Some (n + 1) else None | BUnb => Some 0 end.
@@ -57,6 +54,12 @@ Section Guards.
   Proof. unfold start_of. destruct (Z.ltb_spec (W64 - 1 + 1) W64); [lia|reflexivity]. Qed.
   Lemma end_of_no_wrap l : end_of (BIncl (W64 - 1)) l = None.
   Proof. unfold end_of. destruct (Z.ltb_spec (W64 - 1 + 1) W64); [lia|reflexivity]. Qed.
+
+End Resolve.
+
+Section Guards.
+  Variable cfg : tcfg.
+  Variable ncap : Z -> option Z.
 
   Lemma drop_elem_keeps_vector s e r s' :
     drop_elem cfg e s = (r, s') -> heap s' = heap s /\ vecs s' = vecs s /\ iters s' = iters s.
